@@ -317,6 +317,8 @@ def run_sequence(c):
                             res.setdefault("query_errors", []).append("%s: %s" % (q, type(qe).__name__))
                 elif kind == "set_mesh":
                     other = build_mesh(op["mesh"]).copy()
+                    if op.get("translate"):
+                        other.Translate(*op["translate"])      # e.g. a moved copy with the SAME topology
                     simu.mesh = other             # the setter re-initialises the boundary conditions
                     res["meshes"].append(_groups_of(other))
                     imesh += 1
